@@ -64,6 +64,8 @@ CFinish(Q, s, then, vals) ==
      IF vals[1].t # "int" \/ vals[2].t # "int" THEN CFail(s, "operator on non-integers")
      ELSE IF then.op \in {"div", "rem"} /\ ~DivDefined(vals[1].w, vals[2].w) THEN [s EXCEPT !.status = "source-undefined"]
      ELSE CGo(s, CApply(then.kont, CIntV(CIntOp(then.op, vals[1].w, vals[2].w))))
+  ELSE IF then.kind \in {"ifc", "print", "exit"} /\ \E i \in 1..Len(vals) : vals[i].t # "int" THEN
+     CFail(s, then.kind \o " of a non-integer value")      \* ill-typed Core (e.g. after name capture): stuck, not a tool error
   ELSE IF then.kind = "ifc" THEN
      LET n == CNode(Q, then.n)
          a == vals[1].w
